@@ -469,4 +469,133 @@ Proof. cbn zeta.
     + destruct (exec_arch_prefix (blocks_fs (fs_of s) (data_blocks s)) ae (wC (wfin s)) (k - length (data_steps s)))
         as (P1 & P2 & P3 & P4 & _). apply Hsame; congruence. Qed.
 
+
+(** ** 5. recovery: per-path analysis for runs without both-changed conflicts *)
+
+(** what the decision for one path does to the two sides of that path *)
+Definition pres (ca cb : option content) (zx : option D) : option content * option content :=
+  match rpath (Hh <$> ca) (Hh <$> cb) zx with
+  | None => (ca, cb)
+  | Some Converge => (ca, cb)
+  | Some PropAB => (ca, ca)
+  | Some PropBA => (cb, cb)
+  | Some DelA => (None, cb)
+  | Some DelB => (ca, None)
+  | Some ConfDelMod => match ca with Some _ => (ca, ca) | None => (cb, cb) end
+  | Some ConfBoth => (ca, cb)
+  end.
+
+Lemma rpath_src (x y z : option D) act : rpath x y z = Some act ->
+  match act with
+  | PropAB => is_Some x
+  | PropBA => is_Some y
+  | Converge => is_Some x /\ x = y
+  | DelA => is_Some x /\ y = None
+  | DelB => x = None /\ is_Some y
+  | ConfDelMod => (is_Some x /\ y = None) \/ (x = None /\ is_Some y)
+  | ConfBoth => True
+  end.
+Proof. unfold rpath. intros Hr. destruct x as [xv|], y as [yv|], z as [zv|];
+  repeat (case_decide || case_match); simplify_eq; cbn; eauto. Qed.
+
+Lemma rpath_none (x y z : option D) : rpath x y z = None ->
+  (x = None /\ y = None) \/ (exists v, x = Some v /\ y = Some v /\ z = Some v).
+Proof. unfold rpath. intros Hr. destruct x as [xv|], y as [yv|], z as [zv|];
+  repeat (case_decide || case_match); simplify_eq; eauto. Qed.
+
+Lemma rpath_same (x z : option D) : rpath x x z = None \/ rpath x x z = Some Converge.
+Proof. unfold rpath. destruct x as [xv|]; [|auto]. rewrite decide_True by reflexivity. case_decide; auto. Qed.
+
+Lemma pres_same ca cb z : Hh <$> ca = Hh <$> cb ->
+  rpath (Hh <$> ca) (Hh <$> cb) z <> Some ConfBoth /\ pres ca cb z = (ca, cb).
+Proof. intros He. unfold pres. rewrite He. destruct (rpath_same (Hh <$> cb) z) as [-> | ->]; split; congruence. Qed.
+
+Lemma apply_at a b (w : work) p act zx :
+  wErr w = false -> act <> ConfBoth ->
+  a !! p = Hh <$> wA w !! p -> b !! p = Hh <$> wB w !! p ->
+  rpath (a !! p) (b !! p) zx = Some act ->
+  let w' := apply a b w (p, act) in
+  wErr w' = false /\ wConf w' = wConf w /\
+  (wA w' !! p, wB w' !! p) = pres (wA w !! p) (wB w !! p) zx /\
+  wC w' !! p = Hh <$> wA w' !! p /\ Hh <$> wA w' !! p = Hh <$> wB w' !! p.
+Proof. intros He Hnc Ha Hb Hr. cbn zeta. pose proof (rpath_src _ _ _ _ Hr) as Hs. unfold pres. rewrite <- Ha, <- Hb, Hr.
+  unfold Bisync.apply, copy. rewrite He.
+  destruct (wA w !! p) as [ca|] eqn:EA, (wB w !! p) as [cb|] eqn:EB; cbn in Ha, Hb; rewrite ?Ha, ?Hb in *;
+  destruct act; try congruence; cbn in Hs;
+  (try (destruct Hs as [Hs|Hs])); destruct_and?;
+  try (match goal with H : is_Some None |- _ => destruct H; discriminate end); simplify_eq;
+  cbn; unfold set_opt; rewrite ?lookup_insert, ?lookup_delete, ?EA, ?EB; cbn; auto 10 with f_equal.
+Qed.
+
+Lemma apply_other a b (w : work) p act x : act <> ConfBoth -> x <> p ->
+  let w' := apply a b w (p, act) in
+  wA w' !! x = wA w !! x /\ wB w' !! x = wB w !! x /\ wC w' !! x = wC w !! x.
+Proof. intros Hnc Hx. cbn zeta. unfold Bisync.apply, copy, set_opt. destruct (wErr w); [auto|].
+  destruct act; try congruence; repeat case_match; simplify_eq; cbn;
+  rewrite ?lookup_insert_ne, ?lookup_delete_ne by congruence; auto. Qed.
+
+Definition plan_ok (a b : gmap K D) (base : option (gmap K D)) (pl : list (K * action)) : Prop :=
+  NoDup pl.*1 /\ forall p act, (p, act) ∈ pl -> act <> ConfBoth /\ rpath (a !! p) (b !! p) (base_at base p) = Some act.
+
+Lemma foldl_apply_perpath a b base pl (w : work) :
+  plan_ok a b base pl -> wErr w = false ->
+  (forall p, p ∈ pl.*1 -> a !! p = Hh <$> wA w !! p /\ b !! p = Hh <$> wB w !! p) ->
+  let w' := foldl (apply a b) w pl in
+  wErr w' = false /\ wConf w' = wConf w /\
+  forall x,
+    (x ∈ pl.*1 -> (wA w' !! x, wB w' !! x) = pres (wA w !! x) (wB w !! x) (base_at base x) /\
+                  wC w' !! x = Hh <$> wA w' !! x /\ Hh <$> wA w' !! x = Hh <$> wB w' !! x) /\
+    (x ∉ pl.*1 -> wA w' !! x = wA w !! x /\ wB w' !! x = wB w !! x /\ wC w' !! x = wC w !! x).
+Proof. revert w; induction pl as [|[p act] pl IH]; intros w [Hnd Hpl] He Hab; cbn [foldl].
+  { split; [exact He|]. split; [reflexivity|]. intros x. split; [intros Hx; cbn in Hx; set_solver|auto]. }
+  cbn [fmap list_fmap fst] in Hnd, Hab. apply NoDup_cons in Hnd as [Hp Hnd].
+  destruct (Hpl p act) as [Hnc Hr]; [left|].
+  destruct (Hab p) as [Ha Hb]; [left|].
+  destruct (apply_at a b w p act _ He Hnc Ha Hb Hr) as (He1 & Hc1 & Hp1 & Hp2 & Hp3).
+  set (w1 := apply a b w (p, act)) in *.
+  assert (Hoth : forall x, x <> p -> wA w1 !! x = wA w !! x /\ wB w1 !! x = wB w !! x /\ wC w1 !! x = wC w !! x).
+  { intros x Hx. exact (apply_other a b w p act x Hnc Hx). }
+  destruct (IH w1) as (He2 & Hc2 & Hx2).
+  { split; [exact Hnd|]. intros p' act' Hin. apply Hpl. right. exact Hin. }
+  { exact He1. }
+  { intros p' Hin. assert (p' <> p) by (intros ->; contradiction).
+    destruct (Hoth p') as (-> & -> & _); [assumption|]. apply Hab. right. exact Hin. }
+  split; [exact He2|]. split; [congruence|]. intros x. destruct (Hx2 x) as [Hin Hout].
+  cbn [fmap list_fmap fst]. split.
+  - intros Hx. apply elem_of_cons in Hx as [->|Hx].
+    + destruct (Hout Hp) as (-> & -> & ->). auto.
+    + assert (x <> p) by (intros ->; contradiction).
+      destruct (Hoth x) as (E1 & E2 & _); [assumption|]. rewrite <- E1, <- E2. exact (Hin Hx).
+  - intros Hx. apply not_elem_of_cons in Hx as [Hxp Hx].
+    destruct (Hout Hx) as (-> & -> & ->). apply Hoth. exact Hxp. Qed.
+
+(** facts about the plan *)
+Lemma plan_elem (a b : gmap K D) base p act :
+  (p, act) ∈ plan a b base -> rpath (a !! p) (b !! p) (base_at base p) = Some act.
+Proof. unfold Bisync.plan. intros Hin. apply elem_of_list_omap in Hin as (p' & _ & Hf).
+  destruct (rpath (a !! p') (b !! p') (base_at base p')) eqn:E; [|discriminate]. simplify_eq. exact E. Qed.
+
+Lemma omap_fst_sublist {X} (f : K -> option X) (l : list K) :
+  (omap (fun p => match f p with Some v => Some (p, v) | None => None end) l).*1 `sublist_of` l.
+Proof. induction l as [|p l IH]; cbn; [constructor|]. destruct (f p); cbn; constructor; exact IH. Qed.
+
+Lemma sublist_NoDup_1 {X} (l k : list X) : l `sublist_of` k -> NoDup k -> NoDup l.
+Proof. intros Hs Hk. apply sublist_submseteq, submseteq_Permutation in Hs as [k' Hp].
+  rewrite Hp in Hk. apply NoDup_app in Hk. tauto. Qed.
+
+Lemma plan_fst_NoDup (a b : gmap K D) base : NoDup (plan a b base).*1.
+Proof. unfold Bisync.plan. eapply sublist_NoDup_1; [apply omap_fst_sublist|].
+  unfold plan_keys. rewrite merge_sort_Permutation. apply NoDup_elements. Qed.
+
+Lemma plan_fst_elem (a b : gmap K D) base p :
+  p ∈ (plan a b base).*1 <-> rpath (a !! p) (b !! p) (base_at base p) <> None.
+Proof. split.
+  - intros Hin. apply elem_of_list_fmap in Hin as ([p' act] & -> & Hin). cbn. rewrite (plan_elem _ _ _ _ _ Hin). discriminate.
+  - intros Hr. destruct (rpath (a !! p) (b !! p) (base_at base p)) as [act|] eqn:E; [|congruence].
+    apply elem_of_list_fmap. exists (p, act). split; [reflexivity|].
+    unfold Bisync.plan. apply elem_of_list_omap. exists p. split; [|rewrite E; reflexivity].
+    unfold plan_keys. rewrite merge_sort_Permutation. apply elem_of_elements, elem_of_union.
+    rewrite !elem_of_dom. destruct (a !! p) eqn:Ea; [left; eauto|]. destruct (b !! p) eqn:Eb; [right; eauto|].
+    cbn in E. discriminate. Qed.
+
 End P.
